@@ -314,7 +314,13 @@ def run_inproc_cases(impl, cases, nproc=NPROC, repeat=1):
             lines.append(json.dumps({"args": argv, "env": env, "cwd": d, "sink": c["sink"] if c.get("sink") is not None else -1, "faults": c.get("read_faults") or {}}))
         lines = [l for l in lines for _ in range(repeat)]
         env = _covenv(dict(PATH="/usr/bin:/bin", HOME=work, HR_VERIF_SERVE="1", TZ="UTC"))
-        outs = run_sharded(impl["hr_verif"], lines, env=env, nproc=nproc)
+        try:
+            outs = run_sharded(impl["hr_verif"], lines, env=env, nproc=nproc, timeout=300)
+        except subprocess.TimeoutExpired:
+            # a case never returns (the harness serves its cases one after the other): run every case on the real binary, each under its own time limit,
+            # so that the hanging invocation is named (sinks cannot be injected there: statuses of sink cases are not comparable, the hang is)
+            rr = run_cli_cases(impl, [dict(c, sink=None) for c in cases], nproc=nproc)
+            return [x for x in rr for _ in range(repeat)]
         res = []
         for o in outs:
             j = json.loads(o)
